@@ -146,8 +146,11 @@ pub fn run_check(replay: Option<Value>) -> i32 {
         let traj: Vec<Vec<f64>> = grid.iter().map(|t| p.exact(x0, &y0, *t).unwrap()).collect();
         let ymax = traj.iter().flat_map(|y| y.iter()).fold(0.0f64, |a, b| a.max(b.abs()));
         let ymin_comp = traj.iter().flat_map(|y| y.iter()).fold(f64::INFINITY, |a, b| a.min(b.abs()));
-        if job.mode == Mode::PureRelative && !(ymin_comp > 0.05 * ymax) {
-            return None; // pure relative control needs a solution bounded away from zero
+        // pure relative control needs every component bounded away from zero: no sign change and no
+        // approach to zero below 1e-10 of the scale (a solution that merely decays qualifies)
+        let sign_change = (0..p.n).any(|i| traj.iter().any(|y| y[i] * traj[0][i] <= 0.0));
+        if job.mode == Mode::PureRelative && (sign_change || !(ymin_comp > 1e-10 * ymax)) {
+            return None;
         }
         let desc0 = json!({"key": job.key, "method": mname(job.method), "problem": p.name, "direction": format!("{:?}", job.dir), "x0": x0, "xend": xend, "y0": y0,
             "mode": format!("{:?}", job.mode), "t_eval": job.teval, "kappa": kap});
